@@ -12,9 +12,13 @@ RULE = ("perm: L1 on the real clp / tokenregistry message servers and the real i
         "{CLP, IBCEXPORT, IBCIMPORT, DISABLE_BUY, DISABLE_SELL} for EACH token the message names (33x33 for two-token messages) x "
         "unit_denom in {empty, self, other} for transfers; (b) n random trials: random registries (duplicates, aliases, shuffled) set "
         "through MsgSetRegistry, then 1-4 rounds of [MsgRegister | MsgDeregister] + one message; (c) L0: GetLiquidityAddSymmetryState "
-        "on ratios at and around equality. Compared: registry after every edit, pass/refuse of every message (transfer: refused by the "
+        "on ratios at and around equality; (d) 2+n/60 transaction histories of 45 transactions on a chain whose committed state evolves: "
+        "each transaction runs ALL its messages on ONE CacheContext, stops at the first failing message and is written back only if all "
+        "succeeded and it is not a simulation (baseapp runMsgs); shapes [edit, message rigged to fail after the guards], [edit, message], "
+        "[1-3 messages], [edit], simulated [edit(, message)]; four of five transactions share the block height of their predecessor. Compared: registry after every edit, pass/refuse of every message (transfer: refused by the "
         "wrapper or reached the ibc-go stub), whether a refused handler wrote to its own cached state. chk: accepted => decision table "
-        "holds on the implementation's own registry; refused => digest of all 23 KV stores unchanged. non-trivial = distinct message line")
+        "holds on the registry AS STORED (bytes read from the tokenregistry KV store of the context the message ran on and decoded, "
+        "not through the keeper's GetRegistry); refused => digest of all 23 KV stores unchanged. non-trivial = distinct message line")
 TRUSTED_BASE = [
     "Lean 4.33.0 kernel; axioms propext, Classical.choice, Quot.sound (audited per theorem on every run)",
     "fact translator extract/perm/perms.go (go/ast, syntactic): its recognition of the guard shapes, of 'the failing branch returns "
@@ -36,7 +40,8 @@ UNPROVED = [
     "The theorems are over the guard prologue as DATA regenerated from the source; that the Go handlers execute those guards in "
     "that order with nothing else refusing on registry grounds is established by the translator (trusted) and the L1 matrix (test).",
     "L2 (signed transactions through ante/baseapp, real ibc-go with a closed channel) is not run; the transaction wrapper is "
-    "modelled (deliver) and exercised at L1 with one cached context per message.",
+    "modelled (deliver, deliverTx) and exercised at L1 with one cached context per transaction (one or several messages, rollback, "
+    "simulation).",
     "IBC import (OnRecvPacket whitelist conversion) is outside the property and the model.",
 ]
 MANIFEST = {
